@@ -300,5 +300,11 @@ pub fn run(ctx: &Ctx) -> Report {
     let variant = ctx.variant.clone();
     let thorough = ctx.tier_thorough;
     let seed = ctx.seed;
-    par_run(&cases, ctx.threads, |_, c, rep| run_case(c, &variant, thorough, seed, rep))
+    let mut out = par_run(&cases, ctx.threads, |_, c, rep| run_case(c, &variant, thorough, seed, rep));
+    if ctx.variant == "v3" && ctx.only_panel.as_deref().map(|p| p == "epd12in48b_v2").unwrap_or(true) {
+        let mut r = Report::new();
+        crate::props::p12checks::c04(&mut r, thorough, seed);
+        out.merge(r);
+    }
+    out
 }
